@@ -64,3 +64,33 @@ M('C20', 'c20-override-false-ignored', 'openhtf/util/configuration.py',
   "              value, key, self._loaded_values[key])\n          continue",
   "              value, key, self._loaded_values[key])",
   '_override=False still overrides')
+
+# ---------------------------------------------------------------- C13
+M('C13', 'c13-no-writer-lock', 'openhtf/plugs/usb/adb_message.py',
+  "    with self._writer_lock:\n      self._transport.write(message.header, timeout.remaining_ms)",
+  "    if True:\n      self._transport.write(message.header, timeout.remaining_ms)",
+  'write_message no longer serialises writers')
+M('C13', 'c13-no-reader-lock', 'openhtf/plugs/usb/adb_message.py',
+  "    with self._reader_lock:\n      raw_header = self._transport.read(",
+  "    if True:\n      raw_header = self._transport.read(",
+  'read_message no longer serialises readers')
+M('C13', 'c13-skip-length-test', 'openhtf/plugs/usb/adb_message.py',
+  "    if (len(data) != self.data_length or\n        message.data_crc32 != self.data_checksum):",
+  "    if (message.data_crc32 != self.data_checksum):",
+  'payload length no longer compared with the header')
+M('C13', 'c13-skip-checksum', 'openhtf/plugs/usb/adb_message.py',
+  "    if (len(data) != self.data_length or\n        message.data_crc32 != self.data_checksum):",
+  "    if (len(data) != self.data_length):",
+  'payload checksum no longer compared with the header')
+M('C13', 'c13-drop-payload-on-timeout', 'openhtf/plugs/usb/adb_message.py',
+  "        timeout = timeouts.PolledTimeout.from_millis(10)\n      self._transport.write(message.data, timeout.remaining_ms)",
+  "        return\n      self._transport.write(message.data, timeout.remaining_ms)",
+  'payload not sent when the timeout expired after the header')
+M('C13', 'c13-magic-wrong', 'openhtf/plugs/usb/adb_message.py',
+  "    self.magic = self._command ^ 0xFFFFFFFF",
+  "    self.magic = self._command ^ 0xFFFFFFFE",
+  'magic field is not command xor 0xFFFFFFFF')
+M('C13', 'c13-lock-released-early', 'openhtf/plugs/usb/adb_message.py',
+  "        timeout = timeouts.PolledTimeout.from_millis(10)\n      self._transport.write(message.data, timeout.remaining_ms)",
+  "        timeout = timeouts.PolledTimeout.from_millis(10)\n    self._transport.write(message.data, timeout.remaining_ms)",
+  'payload written after the writer lock was released')
